@@ -452,6 +452,37 @@ func ruleSnapshotCleanup(r *Report) {
 			}
 		}
 	}
+	if sn := r.Anchor("(*column.Collection).Snapshot"); sn != nil {
+		// … and only once: a second uninstall (a deferred clean-up helper that also detaches, after the
+		// explicit one) runs when the next snapshot may already have installed its recorder
+		var sites []ssa.Instruction
+		deferred := 0
+		allInstrs(sn, func(ins ssa.Instruction) {
+			cc, isDefer, _ := callCommon(ins)
+			if cc == nil || cc.StaticCallee() == nil {
+				return
+			}
+			o := originOf(cc.StaticCallee())
+			hit := reachesFn(o, "(*column.Collection).recorderClose", 3)
+			if hit {
+				sites = append(sites, ins)
+				if isDefer {
+					deferred++
+				}
+			}
+		})
+		twice := deferred > 0 && len(sites) > 1
+		for i := range sites {
+			for j := range sites {
+				if i != j && canReach(sites[i], sites[j]) {
+					twice = true
+				}
+			}
+		}
+		if len(sites) > 0 {
+			h.Check(!twice, "(*column.Collection).Snapshot/uninstall-once", r.P.InstrPos(sites[0]), "the recorder is uninstalled once per snapshot", "a path of Snapshot uninstalls the recorder twice: the second time it detaches whatever is attached by then — the recorder of a snapshot that started while this one was copying its log")
+		}
+	}
 	ro := r.Anchor("(*column.Collection).recorderOpen")
 	if ro != nil {
 		cas := callsTo(ro, false, "sync/atomic.CompareAndSwapPointer")
@@ -489,6 +520,24 @@ func ruleSnapshotCleanup(r *Report) {
 					}
 				}
 				h.Check(errRet, "(*column.Collection).recorderOpen/cas-error", r.P.InstrPos(cas[0]), "reports an error", "recorderOpen does not report an error when another snapshot is in progress")
+				// the loser leaves the winner's recorder alone: nothing below the failed compare-and-swap
+				// uninstalls (recorderClose detaches whatever is attached, not what the caller holds)
+				detaches := false
+				for _, b := range ro.Blocks {
+					if b != fail && !fail.Dominates(b) {
+						continue
+					}
+					for _, ins := range b.Instrs {
+						cc, _, _ := callCommon(ins)
+						if cc == nil || cc.StaticCallee() == nil {
+							continue
+						}
+						if reachesFn(originOf(cc.StaticCallee()), "(*column.Collection).recorderClose", 3) {
+							detaches = true
+						}
+					}
+				}
+				h.Check(!detaches, "(*column.Collection).recorderOpen/cas-fail-keeps-winner", r.P.InstrPos(cas[0]), "the losing snapshot does not uninstall", "a Snapshot that is refused because another one is in progress uninstalls the recorder — the other snapshot's: the commits applied from then on are recorded nowhere and the running snapshot restores without them")
 			}
 		}
 	}
@@ -1726,4 +1775,27 @@ func ruleStateFlush(r *Report) {
 		where = r.P.InstrPos(ret)
 	}
 	h.Check(ok && n >= 1, "(*column.Collection).writeState", where, "success ⇒ flushed here, flush error returned", "writeState can report success without having flushed the buffering writer in its own body: for a collection without blocks nothing reaches the destination and a failing destination is not noticed")
+}
+
+// reachesFn: fn is, or statically calls (through library functions, depth-bounded), the named function.
+func reachesFn(fn *ssa.Function, name string, depth int) bool {
+	if fn == nil {
+		return false
+	}
+	if fnName(fn) == name {
+		return true
+	}
+	if depth <= 0 || fn.Blocks == nil || curProg == nil || !curProg.InLib(fn) {
+		return false
+	}
+	hit := false
+	allInstrs(fn, func(ins ssa.Instruction) {
+		if hit {
+			return
+		}
+		if cc, _, _ := callCommon(ins); cc != nil && cc.StaticCallee() != nil && reachesFn(originOf(cc.StaticCallee()), name, depth-1) {
+			hit = true
+		}
+	})
+	return hit
 }
